@@ -20,10 +20,18 @@
    (4 (op ...))                                                             the same on the global registry
    (3 name obs_suffix result opens fd_after)                                the global registry
         opens = number of open() audit events on the path during open_workbook
+   (5 (op ...))                                                             fresh WBFileRegistry, WHOLE PATHS
+        op = (0 (suffix ...) cls) | (1 path obs_suffix result (ctor ...) obs_name):  open_workbook(Path(path)), the string
+        handed to Path() as it is (no file is touched: the classes are the runner's); obs_suffix / obs_name = what
+        pathlib reports for that Path; the model takes name and suffix out of the path itself (Model/RegistryPath.v)
+   (6 (op ...))                                                             the same on the global registry
+        the runner opens Path(scratch + slash + path) on real files, so path must have a name of its own
+        (has_name; Props/C14c.v C14c_prefix_irrelevant); a case without one is answered with the error code 9
    Strings are lists of code points. *)
 From Coq Require Import ZArith NArith List Bool Arith.
 Import ListNotations.
 Require Import SR.Base.Sx SR.Base.Res SR.Gen.RegistryParams SR.Spec.Lifecycle SR.Model.Registry SR.Model.Lifecycle.
+Require Import SR.Model.RegistryPath.
 Open Scope Z_scope.
 
 Definition exn_of_code (z : Z) : exn :=
@@ -191,10 +199,70 @@ Definition judge_global (c : sx) : sx :=
   let agree := seq_eqb (path_suffix name) o_suffix && sx_eqb o_result (res_sx m_res) in
   verdict None good agree (match spec with Some _ => 31 | None => 30 end) (L [of_Ns (path_suffix name); res_sx m_res]).
 
+(* ---------------------------------------------------------------- kinds 5 and 6: whole paths *)
+Definition path_of (x : sx) : list N := as_Ns (nth_sx 1 x).
+
+(* the history as the model runs it: every open takes name and suffix out of the path string *)
+Fixpoint run_paths (r : registry) (xs : list sx) : list (res N * list oev) :=
+  match xs with
+  | [] => []
+  | x :: t =>
+      if is_open x then open_path r (path_of x) :: run_paths r t
+      else match reg_of x with
+           | HRegister names c => run_paths (decorate r (names, c)) t
+           | HOpen _ => run_paths r t
+           end
+  end.
+
+(* which rule of the suffix extraction the path exercises (coverage statistics only):
+   1 a suffix, opened   2 a suffix, refused   3 a name without a dot   4 a name with a dot but no suffix
+   (first or last character, two dots)   5 no name at all;   + 10 when the path contains a slash *)
+Definition path_class (opened : bool) (p : list N) : Z :=
+  (match suffix_of_path p with
+   | _ :: _ => if opened then 1 else 2
+   | [] => match path_name p with
+           | [] => 5
+           | nm => if existsb (N.eqb dot) nm then 4 else 3
+           end
+   end) + (if existsb (N.eqb slash) p then 10 else 0).
+
+Definition judge_paths (base : Z) (r : registry) (pre : list (list (list N) * N)) (need_name : bool) (ops : sx) : sx :=
+  let xs := as_list ops in
+  let opens := filter is_open xs in
+  let sops := map spec_op xs in
+  let m_out := run_paths r xs in
+  let s_out := history pre sops in
+  let good :=
+    Nat.eqb (length opens) (length s_out)
+    && forallb (fun p =>
+         let x := fst p in let spec := snd p in
+         sx_eqb (nth_sx 3 x) (res_sx (want spec))
+         && sx_eqb (of_Ns (as_Ns (nth_sx 4 x))) (of_Ns (match spec with Some c => [c] | None => [] end)))
+       (combine opens s_out) in
+  let agree :=
+    Nat.eqb (length opens) (length m_out)
+    && forallb (fun p =>
+         let x := fst p in let m := snd p in
+         seq_eqb (suffix_of_path (path_of x)) (as_Ns (nth_sx 2 x))
+         && seq_eqb (path_name (path_of x)) (as_Ns (nth_sx 5 x))
+         && sx_eqb (nth_sx 3 x) (res_sx (fst m))
+         && sx_eqb (of_Ns (as_Ns (nth_sx 4 x))) (of_Ns (map (fun e => match e with Construct c => c end) (snd m))))
+       (combine opens m_out) in
+  let branch :=
+    match rev (combine opens m_out) with
+    | (x, m) :: _ => base + path_class (match fst m with Ok _ => true | Err _ => false end) (path_of x)
+    | [] => 0
+    end in
+  if need_name && negb (forallb (fun x => has_name (path_of x)) opens) then L [A 9; A 0]
+  else verdict None good agree branch
+         (L [L (map (fun x => of_Ns (suffix_of_path (path_of x))) opens); L (map (fun m => res_sx (fst m)) m_out)]).
+
 Definition judge (c : sx) : sx :=
   let k := as_Z (nth_sx 0 c) in
   if k =? 1 then judge_lifecycle (as_Z (nth_sx 1 c)) (as_Z (nth_sx 2 c)) (as_Zs (nth_sx 3 c)) (nth_sx 4 c)
   else if k =? 2 then judge_history 20 [] [] (nth_sx 1 c)
   else if k =? 4 then judge_history 40 global_registry registrations (nth_sx 1 c)
   else if k =? 3 then judge_global c
+  else if k =? 5 then judge_paths 500 [] [] false (nth_sx 1 c)
+  else if k =? 6 then judge_paths 600 global_registry registrations true (nth_sx 1 c)
   else L [A 9; A 0].
